@@ -111,8 +111,9 @@ theorem step_publish {k : Nat} {s : St} (pre post : List Task) (o : Obs) (b : Bo
 
 theorem inv_step {k : Nat} {s s' : St} (I : Inv k s) (h : Step k s s') : Inv k s' := by
   cases h with
-  | spawnObs o hw hu => exact step_spawnObs o hw hu I
-  | spawnCol => exact step_spawnCol I
+  | spawnObs pre post o hw hu ht => exact step_spawnObs pre post o hw hu ht I
+  | spawnCol pre post ht => exact step_spawnCol pre post ht I
+  | release pre post ht => exact step_release pre post ht I
   | claim pre post o ht => exact step_claim pre post o ht I
   | apply pre post o b c a rest ht => exact step_apply pre post o b c a rest ht I
   | publish pre post o b ht => exact step_publish pre post o b ht I
